@@ -50,6 +50,7 @@ fn main() {
         "stream-replay" => stream::cmd_replay(rest),
         "stream-trace" => stream::cmd_trace(rest),
         "stream-tamper" => stream::cmd_tamper(rest),
+        "stream-session" => stream::cmd_session(rest),
         "aead-roundtrip" => aead::cmd_roundtrip(rest),
         "aead-tamper" => aead::cmd_tamper(rest),
         "untrusted" => untrusted::cmd_untrusted(rest),
